@@ -817,7 +817,7 @@ fn case_json(c: &Case) -> Value {
 }
 
 fn run_worker(tier: Tier, journal: Option<String>, dead_file: Option<String>) -> i32 {
-    let ctx = Ctx::new("C14", tier, tier.pick(100, 1100));
+    let ctx = Ctx::new("C14", tier, tier.pick(240, 1100));
     let t_build = Instant::now();
     let sc = Scope::build(tier);
     let build_s = t_build.elapsed().as_secs_f64();
